@@ -50,8 +50,8 @@ def kindOfBase (name : String) : Option Kind :=
   | "cache" => some Kinds.Cache.kind
   | "slist" => some (Kinds.Lists.kindFor false)
   | "dlist" => some (Kinds.Lists.kindFor true)
-  | "lqueue" => some Kinds.Q.lqueueSpecOnly
-  | "lstack" => some Kinds.S.lstackMonitor
+  | "lqueue" => some Kinds.Q.lqueueKind
+  | "lstack" => some Kinds.S.lstackKind
   | _ => none
 
 /-! ## C02: linearizability search with the sequential monitors as oracle -/
